@@ -832,7 +832,7 @@ end
 
 inductive Finding
   | namedType | uintWrap | nilElem | nilCollapse | narrowing | arrayLen | structField
-  | nilArg | nilGlobal | proxyType | globalError | ptrIface | registry
+  | nilArg | nilGlobal | proxyType | globalError | ptrIface | registry | surplusArgs
   deriving DecidableEq, Repr
 
 def Finding.id : Finding → String
@@ -849,6 +849,7 @@ def Finding.id : Finding → String
   | .globalError => "C08-global-error-panics"
   | .ptrIface => "C08-pointer-to-interface-panics"
   | .registry => "C08-registry-keeps-failed-type"
+  | .surplusArgs => "C08-surplus-arguments-dropped"
 
 /-- a declared type whose underlying type is not a struct occurs (outside struct fields):
     the kind converters assert / produce the *unnamed* type -/
@@ -997,5 +998,124 @@ def setGuards (F : FOps) (ft : GoTy) (o : Obj) : List Finding :=
 
 def callGuards (F : FOps) (pt : GoTy) (o : Obj) : List Finding :=
   (if decide (o = .nil) && !nilTo pt then [.nilArg] else []) ++ writeAllGuards F .get pt o
+
+/-! ### `Proxy.call` with several parameters: the whole argument loop
+
+`Proxy.call` walks the parameters with a separate index into the script's arguments.  The
+conversion phase (`To`, or `reflect.Zero` for a nil argument) runs position by position and stops
+at the first error or panic; then too few arguments are rejected ("args error"); then
+`Func.Call` panics on an invalid or wrongly typed input.  Arguments beyond the last parameter are
+never looked at. -/
+
+def Fields.length : Fields → Nat
+  | .nil => 0
+  | .cons _ r => r.length + 1
+
+/-- conversion phase for one argument: what is appended to `inputs`; `none` is an input on
+    which `Func.Call` will panic (`reflect.ValueOf(nil)`, or a value of a non-assignable type) -/
+def convArg (F : FOps) (pt : GoTy) (o : Obj) : Outcome (Option GoVal) :=
+  if convOK pt = false then .error
+  else match o with
+    | .nil => .ok (some (zero pt))
+    | _ => match toGo F .get pt o with
+      | .ok none => .ok none
+      | .ok (some (d, x)) => if assignable pt d then .ok (some (store pt d x)) else .ok none
+      | .error => .error
+      | .panic => .panic
+
+/-- the argument loop: parameter `i` takes argument `i`; it ends with the parameters or with the
+    arguments, whichever ends first -/
+def convArgs (F : FOps) : Fields → Objs → Outcome (List (Option GoVal))
+  | .nil, _ => .ok []
+  | .cons _ _, .nil => .ok []
+  | .cons pt pts, .cons o os => (convArg F pt o).bind fun x => (convArgs F pts os).map (x :: ·)
+
+def allSome : List (Option GoVal) → Option Vals
+  | [] => some .nil
+  | none :: _ => none
+  | some x :: r => (allSome r).map (Vals.cons x)
+
+/-- `Proxy.call`: the values the Go method receives, one per parameter -/
+def callArgs (F : FOps) (pts : Fields) (os : Objs) : Outcome Vals :=
+  (convArgs F pts os).bind fun xs =>
+    if xs.length < pts.length then .error          -- "requires %d arguments, but %d were given"
+    else match allSome xs with
+      | some vs => .ok vs
+      | none => .panic
+
+/-- the outputs of the call, converted in order (two or more outputs become a list) -/
+def retObjs (F : FOps) : Fields → Vals → Outcome Objs
+  | .cons t ts, .cons x xs => (fromGo F .get t x).bind fun o => (retObjs F ts xs).map (Objs.cons o)
+  | _, _ => .ok .nil
+
+/-- `Proxy.call` on `func (h *Host) M(a A, b B, …) (A, B, …) { h.got = {a, b, …}; return a, b, … }` -/
+def callEchoN (F : FOps) (pts : Fields) (os : Objs) : Outcome (Vals × Objs) :=
+  (callArgs F pts os).bind fun xs => (retObjs F pts xs).map fun rs => (xs, rs)
+
+/-- position by position: parameter `i` holds a value representing object `i`; the counts agree -/
+def reprArgs (F : FOps) : Fields → Vals → Objs → Bool
+  | .nil, .nil, .nil => true
+  | .cons t ts, .cons x xs, .cons o os => repr F t x o && reprArgs F ts xs os
+  | _, _, _ => false
+
+/-- Spec of the argument list: never a panic; when the call is made, the method receives exactly
+    the arguments the script passed — each one, in its own position, none missing, none dropped -/
+def specArgs (F : FOps) (pts : Fields) (os : Objs) (res : Outcome Vals) : Bool :=
+  match res with
+  | .panic => false
+  | .error => true
+  | .ok xs => reprArgs F pts xs os
+
+def callNGuards (F : FOps) : Fields → Objs → List Finding
+  | .nil, .nil => []
+  | .nil, .cons _ _ => [.surplusArgs]
+  | .cons _ _, .nil => []
+  | .cons pt pts, .cons o os => callGuards F pt o ++ callNGuards F pts os
+
+/-! ### A reused VM: globals supplied again (`vm.NewEmpty` + `RunCode(opts…)`, `risor.WithVM`)
+
+`WithGlobals` stores the Go values in `vm.inputGlobals` (a later value for the same name replaces
+the earlier one) and `applyOptions` converts ALL of them again on every run.  So a run sees, for
+every name, the value supplied last; and a global that has no converter keeps every later run
+from starting until it is replaced. -/
+
+/-- a binding in `vm.inputGlobals`: name, Go type, Go value -/
+abbrev Binding := Nat × GoTy × GoVal
+
+/-- `vm.inputGlobals` after the supplies `hist` (LATEST FIRST): one binding per name, the latest -/
+def held : List Binding → List Binding
+  | [] => []
+  | b :: r => b :: (held r).filter (fun x => x.1 != b.1)
+
+/-- `object.AsObjects(vm.inputGlobals)` -/
+def convertAll (F : FOps) : List Binding → Outcome (List (Nat × Obj))
+  | [] => .ok []
+  | (n, ty, v) :: r => (fromGo F .create ty v).bind fun o => (convertAll F r).map ((n, o) :: ·)
+
+def lookupObj (n : Nat) : List (Nat × Obj) → Option Obj
+  | [] => none
+  | (m, o) :: r => if m == n then some o else lookupObj n r
+
+/-- the value last supplied under name `n` (history latest first) -/
+def lastSupplied (n : Nat) (hist : List Binding) : Option (GoTy × GoVal) :=
+  (hist.find? (fun b => b.1 == n)).map (·.2)
+
+/-- a run on a reused VM after the supplies `hist` (latest first) reads global `n`; the VM was
+    made by `vm.NewEmpty`, so an unconvertible global is an error of `RunCode`, not a panic -/
+def reuseRead (F : FOps) (hist : List Binding) (n : Nat) : Outcome Obj :=
+  (convertAll F (held hist)).bind fun gs =>
+    match lookupObj n gs with
+    | some o => .ok o
+    | none => .error                 -- undefined variable
+
+/-- Spec: the run sees the value supplied last under that name (or is rejected) -/
+def specReuse (F : FOps) (hist : List Binding) (n : Nat) (res : Outcome Obj) : Bool :=
+  match lastSupplied n hist with
+  | some (ty, v) => specRead F ty v res
+  | none => decide (res = .error)
+
+def heldGuards : List Binding → List Finding
+  | [] => []
+  | (_, ty, v) :: r => crossGuards .create ty v ++ heldGuards r
 
 end Risor.C08
